@@ -52,20 +52,77 @@ const UNIT: u64 = 3_600_000;
 fn now_ms() -> u64 {
     SystemTime::now().duration_since(UNIX_EPOCH).unwrap_or_default().as_millis() as u64
 }
+/// Key strings <-> key numbers (the convention of `TwoPC/Model.lean`): `k<n>` = n (n < 10000),
+/// "emb:"+name = 10000+n, "node:"+name = 20000+n, "table:"+name = 30000+n,
+/// "table:k<t>:row:<r>" = 40000+100t+r, "edge:k<f>:k<t>:k<y>" = 50000+100f+10t+y.
 fn kname(k: u64) -> String {
-    format!("k{k}")
+    match k {
+        0..=9_999 => format!("k{k}"),
+        10_000..=19_999 => format!("emb:{}", kname(k - 10_000)),
+        20_000..=29_999 => format!("node:{}", kname(k - 20_000)),
+        30_000..=39_999 => format!("table:{}", kname(k - 30_000)),
+        40_000..=49_999 => format!("table:k{}:row:{}", (k - 40_000) / 100, (k - 40_000) % 100),
+        _ => format!("edge:k{}:k{}:k{}", (k - 50_000) / 100, (k - 50_000) / 10 % 10, (k - 50_000) % 10),
+    }
 }
 fn kid(s: &str) -> u64 {
-    s.trim_start_matches('k').parse().unwrap_or(999_999)
+    let raw = |x: &str| x.strip_prefix('k').and_then(|n| n.parse::<u64>().ok()).filter(|n| *n < 10_000);
+    if let Some(n) = raw(s) {
+        return n;
+    }
+    if let Some(r) = s.strip_prefix("emb:") {
+        return raw(r).map_or(999_999, |n| 10_000 + n);
+    }
+    if let Some(r) = s.strip_prefix("node:") {
+        return raw(r).map_or(999_999, |n| 20_000 + n);
+    }
+    if let Some(r) = s.strip_prefix("table:") {
+        if let Some((t, row)) = r.split_once(":row:") {
+            return match (raw(t), row.parse::<u64>()) {
+                (Some(t), Ok(row)) if t < 100 && row < 100 => 40_000 + 100 * t + row,
+                _ => 999_999,
+            };
+        }
+        return raw(r).map_or(999_999, |n| 30_000 + n);
+    }
+    if let Some(r) = s.strip_prefix("edge:") {
+        let p: Vec<Option<u64>> = r.split(':').map(raw).collect();
+        if let [Some(f), Some(t), Some(y)] = p[..] {
+            if f < 100 && t < 10 && y < 10 {
+                return 50_000 + 100 * f + 10 * t + y;
+            }
+        }
+    }
+    999_999
 }
 fn dotted(v: &[u64]) -> String {
     v.iter().map(|x| x.to_string()).collect::<Vec<_>>().join(".")
 }
-fn data_of(t: &TensorData) -> u64 {
-    match t.get("data") {
-        Some(TensorValue::Scalar(ScalarValue::Bytes(b))) if b.len() == 1 => u64::from(b[0]),
-        _ => 999_999,
+/// canonical text of a stored value = `showVal` of the model: which field carries the payload
+fn val_of(t: &TensorData) -> String {
+    let byte = |f: &str| match t.get(f) {
+        Some(TensorValue::Scalar(ScalarValue::Bytes(b))) if b.len() == 1 => Some(u64::from(b[0])),
+        _ => None,
+    };
+    if let Some(v) = byte("data") {
+        return v.to_string();
     }
+    if let Some(TensorValue::Vector(v)) = t.get("vector") {
+        return format!("vec:{}", v.first().map_or(999_999, |x| *x as u64));
+    }
+    if let Some(TensorValue::Scalar(ScalarValue::String(l))) = t.get("_label") {
+        return format!("node:{}", l.trim_start_matches('L'));
+    }
+    if t.get("_from").is_some() && t.get("_to").is_some() {
+        return "edge".into();
+    }
+    if let Some(v) = byte("values") {
+        return match t.get("row_id") {
+            Some(TensorValue::Scalar(ScalarValue::Int(r))) => format!("row:{r}:{v}"),
+            _ => format!("rows:{v}"),
+        };
+    }
+    "?".into()
 }
 fn tensor_of(v: u64) -> TensorData {
     let mut t = TensorData::new();
@@ -84,23 +141,113 @@ fn emb_vec(e: u64) -> SparseVector {
 enum Op {
     Put(u64, u64),
     Del(u64),
+    Embed(u64, u64),
+    NodeCreate(u64, u64),
+    NodeDelete(u64),
+    EdgeCreate(u64, u64, u64),
+    TableInsert(u64, u64),
+    TableUpdate(u64, u64, u64),
+    TableDelete(u64, u64),
+    Cas(u64, Option<u64>, u64),
 }
 impl Op {
+    /// the logical key = the REAL `Transaction::affected_key` (what `prepare` locks)
     fn key(&self) -> u64 {
+        kid(self.real().affected_key())
+    }
+    /// the REAL `Transaction::storage_key` (what `prepare` captures the undo image of)
+    fn undo_key(&self) -> u64 {
+        kid(&self.real().storage_key())
+    }
+    /// the key `apply_operations` writes (harness mirror; checked by the per-commit store comparison)
+    fn write_key(&self) -> u64 {
         match self {
-            Op::Put(k, _) | Op::Del(k) => *k,
+            Op::TableUpdate(t, r, _) | Op::TableDelete(t, r) => 40_000 + 100 * t + r,
+            _ => self.undo_key(),
         }
     }
     fn show(&self) -> String {
         match self {
             Op::Put(k, v) => format!("p{k}={v}"),
             Op::Del(k) => format!("d{k}"),
+            Op::Embed(k, v) => format!("e{k}={v}"),
+            Op::NodeCreate(k, l) => format!("n{k}={l}"),
+            Op::NodeDelete(k) => format!("N{k}"),
+            Op::EdgeCreate(f, t, y) => format!("g{f}.{t}.{y}"),
+            Op::TableInsert(t, v) => format!("i{t}={v}"),
+            Op::TableUpdate(t, r, v) => format!("u{t}.{r}={v}"),
+            Op::TableDelete(t, r) => format!("U{t}.{r}"),
+            Op::Cas(k, e, v) => format!("c{k}?{}={v}", e.map_or("_".to_string(), |x| x.to_string())),
         }
     }
     fn real(&self) -> Transaction {
         match self {
             Op::Put(k, v) => Transaction::Put { key: kname(*k), data: vec![*v as u8] },
             Op::Del(k) => Transaction::Delete { key: kname(*k) },
+            Op::Embed(k, v) => Transaction::Embed { key: kname(*k), vector: vec![*v as f32] },
+            Op::NodeCreate(k, l) => Transaction::NodeCreate { key: kname(*k), label: format!("L{l}") },
+            Op::NodeDelete(k) => Transaction::NodeDelete { key: kname(*k) },
+            Op::EdgeCreate(f, t, y) => Transaction::EdgeCreate { from: kname(*f), to: kname(*t), edge_type: kname(*y) },
+            Op::TableInsert(t, v) => Transaction::TableInsert { table: kname(*t), values: vec![*v as u8] },
+            Op::TableUpdate(t, r, v) => Transaction::TableUpdate { table: kname(*t), row_id: *r, values: vec![*v as u8] },
+            Op::TableDelete(t, r) => Transaction::TableDelete { table: kname(*t), row_id: *r },
+            Op::Cas(k, e, v) => Transaction::CompareAndSwap {
+                key: kname(*k),
+                expected_data: e.map_or(vec![], |x| vec![x as u8]),
+                new_data: vec![*v as u8],
+            },
+        }
+    }
+    fn of_real(t: &Transaction) -> Option<Op> {
+        let b = |d: &Vec<u8>| u64::from(d.first().copied().unwrap_or(0));
+        Some(match t {
+            Transaction::Put { key, data } => Op::Put(kid(key), b(data)),
+            Transaction::Delete { key } => Op::Del(kid(key)),
+            Transaction::Embed { key, vector } => Op::Embed(kid(key), vector.first().map_or(0, |x| *x as u64)),
+            Transaction::NodeCreate { key, label } => Op::NodeCreate(kid(key), label.trim_start_matches('L').parse().unwrap_or(999_999)),
+            Transaction::NodeDelete { key } => Op::NodeDelete(kid(key)),
+            Transaction::EdgeCreate { from, to, edge_type } => Op::EdgeCreate(kid(from), kid(to), kid(edge_type)),
+            Transaction::TableInsert { table, values } => Op::TableInsert(kid(table), b(values)),
+            Transaction::TableUpdate { table, row_id, values } => Op::TableUpdate(kid(table), *row_id, b(values)),
+            Transaction::TableDelete { table, row_id } => Op::TableDelete(kid(table), *row_id),
+            Transaction::CompareAndSwap { key, expected_data, new_data } => {
+                Op::Cas(kid(key), expected_data.first().map(|x| u64::from(*x)), b(new_data))
+            },
+            _ => return None,
+        })
+    }
+    /// the oracle's own account of what `apply_operations` must do to a shard (key number -> value text)
+    fn apply_to(&self, m: &mut BTreeMap<u64, String>) {
+        let wk = self.write_key();
+        match self {
+            Op::Put(_, v) => {
+                m.insert(wk, v.to_string());
+            },
+            Op::Del(_) | Op::NodeDelete(_) | Op::TableDelete(..) => {
+                m.remove(&wk);
+            },
+            Op::Embed(_, v) => {
+                m.insert(wk, format!("vec:{v}"));
+            },
+            Op::NodeCreate(_, l) => {
+                m.insert(wk, format!("node:{l}"));
+            },
+            Op::EdgeCreate(..) => {
+                m.insert(wk, "edge".into());
+            },
+            Op::TableInsert(_, v) => {
+                m.insert(wk, format!("rows:{v}"));
+            },
+            Op::TableUpdate(_, r, v) => {
+                m.insert(wk, format!("row:{r}:{v}"));
+            },
+            Op::Cas(_, e, v) => {
+                // current `data` bytes: a plain number text; every other shape has no `data` field
+                let cur = m.get(&wk).and_then(|x| x.parse::<u64>().ok());
+                if cur == *e {
+                    m.insert(wk, v.to_string());
+                }
+            },
         }
     }
 }
@@ -111,33 +258,52 @@ fn show_ops(ops: &[Op]) -> String {
         ops.iter().map(Op::show).collect::<Vec<_>>().join("+")
     }
 }
+fn parse_op(o: &str) -> Option<Op> {
+    let kv = |r: &str| -> Option<(u64, u64)> {
+        let (k, v) = r.split_once('=')?;
+        Some((k.parse().ok()?, v.parse().ok()?))
+    };
+    let (head, r) = o.split_at(1.min(o.len()));
+    match head {
+        "p" => kv(r).map(|(k, v)| Op::Put(k, v)),
+        "d" => r.parse().ok().map(Op::Del),
+        "e" => kv(r).map(|(k, v)| Op::Embed(k, v)),
+        "n" => kv(r).map(|(k, v)| Op::NodeCreate(k, v)),
+        "N" => r.parse().ok().map(Op::NodeDelete),
+        "g" => {
+            let p: Vec<u64> = r.split('.').filter_map(|x| x.parse().ok()).collect();
+            (p.len() == 3).then(|| Op::EdgeCreate(p[0], p[1], p[2]))
+        },
+        "i" => kv(r).map(|(k, v)| Op::TableInsert(k, v)),
+        "u" => {
+            let (tr, v) = r.split_once('=')?;
+            let (t, row) = tr.split_once('.')?;
+            Some(Op::TableUpdate(t.parse().ok()?, row.parse().ok()?, v.parse().ok()?))
+        },
+        "U" => {
+            let (t, row) = r.split_once('.')?;
+            Some(Op::TableDelete(t.parse().ok()?, row.parse().ok()?))
+        },
+        "c" => {
+            let (k, ev) = r.split_once('?')?;
+            let (e, v) = ev.split_once('=')?;
+            let e = if e == "_" { None } else { Some(e.parse().ok()?) };
+            Some(Op::Cas(k.parse().ok()?, e, v.parse().ok()?))
+        },
+        _ => None,
+    }
+}
 fn parse_ops(s: &str) -> Vec<Op> {
     if s == "-" {
         return vec![];
     }
-    s.split('+')
-        .filter_map(|o| {
-            if let Some(r) = o.strip_prefix('p') {
-                let mut it = r.split('=');
-                Some(Op::Put(it.next()?.parse().ok()?, it.next()?.parse().ok()?))
-            } else {
-                o.strip_prefix('d').and_then(|r| r.parse().ok()).map(Op::Del)
-            }
-        })
-        .collect()
+    s.split('+').filter_map(parse_op).collect()
 }
 fn show_real_ops(ops: &[Transaction]) -> String {
     if ops.is_empty() {
         return "-".into();
     }
-    ops.iter()
-        .map(|t| match t {
-            Transaction::Put { key, data } => format!("p{}={}", kid(key), data.first().copied().unwrap_or(0)),
-            Transaction::Delete { key } => format!("d{}", kid(key)),
-            _ => "?".into(),
-        })
-        .collect::<Vec<_>>()
-        .join("+")
+    ops.iter().map(|t| Op::of_real(t).map_or("?".to_string(), |o| o.show())).collect::<Vec<_>>().join("+")
 }
 
 struct TxInfo {
@@ -185,10 +351,14 @@ struct Real {
     discarded: Vec<(usize, usize)>,
     reasons: Vec<(usize, String)>,
     votes_cast: HashMap<(usize, usize), Vec<bool>>,
+    /// (tx, shard, yes?) of every answer a real participant's `prepare` produced, in order
+    cast: Vec<(usize, usize, bool)>,
+    /// a YES was forged in the name of a real participant (coordinator-unit stream only; never inside the alphabet)
+    forged_participant_yes: bool,
     viol: Vec<Violation>,
     hits: Vec<String>,
     /// what each shard must hold: preloaded data + the applied writes of commit-decided txs, in application order
-    expect: Vec<BTreeMap<u64, u64>>,
+    expect: Vec<BTreeMap<u64, String>>,
     /// per shard and key: the commit-decided tx whose applied operation produced `expect`'s entry (or absence)
     writer: Vec<BTreeMap<u64, usize>>,
 }
@@ -225,6 +395,8 @@ impl Real {
             discarded: vec![],
             reasons: vec![],
             votes_cast: HashMap::new(),
+            cast: vec![],
+            forged_participant_yes: false,
             viol: vec![],
             hits: vec![],
             expect: vec![BTreeMap::new(); n],
@@ -242,13 +414,18 @@ impl Real {
             && (self.applied.contains(&(sh, tx)) || self.discarded.contains(&(sh, tx)))
             && !self.parts[sh].get_awaiting_decision().contains(&self.txs[tx].real)
     }
+    /// logical (lock) keys of `tx` on `sh`
     fn keys_of(&self, tx: usize, sh: usize) -> Vec<u64> {
         self.txs[tx].pos(sh).map_or(vec![], |p| self.txs[tx].ops[p].iter().map(Op::key).collect())
     }
-    /// some OTHER tx applied an operation on one of `tx`'s keys on this shard
+    /// storage keys `tx` writes on `sh`
+    fn wkeys_of(&self, tx: usize, sh: usize) -> Vec<u64> {
+        self.txs[tx].pos(sh).map_or(vec![], |p| self.txs[tx].ops[p].iter().map(Op::write_key).collect())
+    }
+    /// some OTHER tx applied an operation on one of the storage keys `tx` holds an undo image of on this shard
     fn overlapping_commit_applied(&self, sh: usize, tx: usize) -> bool {
-        let ks = self.keys_of(tx, sh);
-        self.applied.iter().any(|&(s2, t2)| s2 == sh && t2 != tx && self.keys_of(t2, sh).iter().any(|k| ks.contains(k)))
+        let ks: Vec<u64> = self.txs[tx].pos(sh).map_or(vec![], |p| self.txs[tx].ops[p].iter().map(Op::undo_key).collect());
+        self.applied.iter().any(|&(s2, t2)| s2 == sh && t2 != tx && self.wkeys_of(t2, sh).iter().any(|k| ks.contains(k)))
     }
     fn dense(&self, real: u64) -> u64 {
         if (0xDEAD_0000_0000..0xDEAD_0000_0000 + 1_000_000).contains(&real) {
@@ -297,22 +474,25 @@ impl Real {
             RMsg::Abort { tx, sh } => format!("A{tx}.{sh}"),
         }
     }
-    fn snapshot(&self, sh: usize) -> BTreeMap<u64, u64> {
+    fn snapshot(&self, sh: usize) -> BTreeMap<u64, String> {
         let mut m = BTreeMap::new();
-        for k in self.stores[sh].scan("k") {
+        for k in self.stores[sh].scan("") {
+            if k.starts_with("_dtx:") {
+                continue; // the participant's own persisted state (witness replays age it through the store)
+            }
             if let Ok(t) = self.stores[sh].get(&k) {
-                m.insert(kid(&k), data_of(&t));
+                m.insert(kid(&k), val_of(&t));
             }
         }
         m
     }
-    fn snapshots(&self) -> Vec<BTreeMap<u64, u64>> {
+    fn snapshots(&self) -> Vec<BTreeMap<u64, String>> {
         (0..self.stores.len()).map(|i| self.snapshot(i)).collect()
     }
     fn show_undo(u: &UndoEntry) -> String {
         match u {
             UndoEntry::Restore { key, data } => {
-                let v = bitcode::deserialize::<TensorData>(data).map_or(999_999, |t| data_of(&t));
+                let v = bitcode::deserialize::<TensorData>(data).map_or("?".to_string(), |t| val_of(&t));
                 format!("r{}={}", kid(key), v)
             },
             UndoEntry::Delete { key } => format!("x{}", kid(key)),
@@ -387,8 +567,9 @@ impl Real {
                 format!("{s}/{t}/{}", tx.pos(*s).map_or_else(|| "-".to_string(), |p| show_ops(&tx.ops[p])))
             })
             .collect();
+        let vc: Vec<String> = self.cast.iter().map(|(t, s, y)| format!("{t}/{s}/{}", if *y { "y" } else { "c" })).collect();
         format!(
-            "C:{}|PA:0|{}|M:{}|H:{}|D:{}|AP:{}|DI:{}|R:{}|AO:{}",
+            "C:{}|PA:0|{}|M:{}|H:{}|D:{}|AP:{}|DI:{}|R:{}|AO:{}|VC:{}",
             c,
             ps.join("|"),
             self.pool.len(),
@@ -397,7 +578,8 @@ impl Real {
             ap.join(","),
             di.join(","),
             rs.join(","),
-            ao.join(",")
+            ao.join(","),
+            vc.join(",")
         )
     }
 
@@ -494,6 +676,35 @@ impl Real {
         }
     }
 
+    /// `n` | `c<tx>` | `y<h>:<keys>[:e<emb>]` (the model ignores the embedding id: it gets the pair bits)
+    fn forged_vote(&mut self, tx: usize, sh: usize, v: &str) -> PrepareVote {
+        let real = self.real_tx(tx);
+        if v == "n" {
+            PrepareVote::No { reason: "forged".into() }
+        } else if let Some(c) = v.strip_prefix('c') {
+            PrepareVote::Conflict { similarity: 1.0, conflicting_tx: self.real_tx(c.parse().unwrap()) }
+        } else {
+            let body = v.trim_start_matches('y');
+            let mut it = body.split(':');
+            let h: u64 = it.next().unwrap().parse().unwrap();
+            let keys: HashSet<String> = it
+                .next()
+                .unwrap_or("")
+                .split('.')
+                .filter(|x| !x.is_empty())
+                .map(|k| kname(k.parse().unwrap()))
+                .collect();
+            let e: u64 = it.next().map_or(0, |x| x.trim_start_matches('e').parse().unwrap());
+            // forged handles live in their own range so that they never collide with real ones
+            let real_h = (1u64 << 60) + h;
+            self.forged.insert(real_h, h);
+            if self.txs.get(tx).map_or(true, |t| t.shards.contains(&sh)) {
+                self.forged_participant_yes = true;
+            }
+            PrepareVote::Yes { lock_handle: real_h, delta: DeltaVector::from_sparse(emb_vec(e), keys, real) }
+        }
+    }
+
     /// Execute one protocol line on the real objects; the answer has the model driver's format.
     fn exec(&mut self, line: &str) -> String {
         let w: Vec<&str> = line.split_whitespace().collect();
@@ -504,7 +715,7 @@ impl Real {
             ["preload", sh, k, v] => {
                 let (sh, k, v): (usize, u64, u64) = (sh.parse().unwrap(), k.parse().unwrap(), v.parse().unwrap());
                 self.stores[sh].put(kname(k), tensor_of(v)).unwrap();
-                self.expect[sh].insert(k, v);
+                self.expect[sh].insert(k, v.to_string());
                 return "ok".into();
             },
             ["begin", shs, ops, _sim, emb] => {
@@ -584,6 +795,7 @@ impl Real {
                                 }
                             }
                             self.votes_cast.entry((tx, sh)).or_default().push(matches!(vote, PrepareVote::Yes { .. }));
+                            self.cast.push((tx, sh, matches!(vote, PrepareVote::Yes { .. })));
                             let s = format!("vote {}", self.show_vote(&vote));
                             self.pool.push(RMsg::Vote { tx, sh, vote });
                             s
@@ -608,15 +820,8 @@ impl Real {
                                 self.applied.push((sh, tx));
                                 if self.decided.contains(&(tx, true)) {
                                     for op in self.txs[tx].pos(sh).map_or(vec![], |p| self.txs[tx].ops[p].clone()) {
-                                        match op {
-                                            Op::Put(k, v) => {
-                                                self.expect[sh].insert(k, v);
-                                            },
-                                            Op::Del(k) => {
-                                                self.expect[sh].remove(&k);
-                                            },
-                                        }
-                                        self.writer[sh].insert(op.key(), tx);
+                                        op.apply_to(&mut self.expect[sh]);
+                                        self.writer[sh].insert(op.write_key(), tx);
                                     }
                                 }
                                 if !self.decided.contains(&(tx, true)) {
@@ -696,7 +901,7 @@ impl Real {
                         let all_rec = pre.as_ref().is_some_and(|p| {
                             t.shards.iter().all(|sh| matches!(p.votes.get(sh), Some(PrepareVote::Yes { .. })))
                         });
-                        if !((all_cast || !self.forged.is_empty()) && all_rec) {
+                        if !((all_cast || self.forged_participant_yes) && all_rec) {
                             self.viol.push(Violation {
                                 class: "tensor_chain.2pc/commit_without_all_yes",
                                 what: format!("coordinator committed tx {tx} (participants {:?}) cast_yes={all_cast} recorded_yes={all_rec}", t.shards),
@@ -760,32 +965,17 @@ impl Real {
             },
             ["cvote", tx, sh, v, _sim] => {
                 let (tx, sh): (usize, usize) = (tx.parse().unwrap(), sh.parse().unwrap());
-                let real = self.real_tx(tx);
-                let vote = if *v == "n" {
-                    PrepareVote::No { reason: "forged".into() }
-                } else if let Some(c) = v.strip_prefix('c') {
-                    PrepareVote::Conflict { similarity: 1.0, conflicting_tx: self.real_tx(c.parse().unwrap()) }
-                } else {
-                    // y<h>:<keys>:e<emb>   (the model ignores the embedding id: it gets the pair bits)
-                    let body = v.trim_start_matches('y');
-                    let mut it = body.split(':');
-                    let h: u64 = it.next().unwrap().parse().unwrap();
-                    let keys: HashSet<String> = it
-                        .next()
-                        .unwrap_or("")
-                        .split('.')
-                        .filter(|x| !x.is_empty())
-                        .map(|k| kname(k.parse().unwrap()))
-                        .collect();
-                    let e: u64 = it.next().map_or(0, |x| x.trim_start_matches('e').parse().unwrap());
-                    // forged handles live in their own range so that they never collide with real ones
-                    let real_h = (1u64 << 60) + h;
-                    self.forged.insert(real_h, h);
-                    PrepareVote::Yes { lock_handle: real_h, delta: DeltaVector::from_sparse(emb_vec(e), keys, real) }
-                };
+                let vote = self.forged_vote(tx, sh, v);
                 let r = self.record_vote(tx, sh, vote);
                 self.drain();
                 r
+            },
+            // a vote that no participant produced joins the pool (mis-tagged / mis-routed / forged response)
+            ["forge", tx, sh, v] => {
+                let (tx, sh): (usize, usize) = (tx.parse().unwrap(), sh.parse().unwrap());
+                let vote = self.forged_vote(tx, sh, v);
+                self.pool.push(RMsg::Vote { tx, sh, vote });
+                "ok".into()
             },
             _ => "bad-op".into(),
         };
@@ -805,14 +995,7 @@ impl Real {
                 let mut want = before.clone();
                 if let Some(p) = t.pos(sh) {
                     for op in &t.ops[p] {
-                        match op {
-                            Op::Put(k, v) => {
-                                want[sh].insert(*k, *v);
-                            },
-                            Op::Del(k) => {
-                                want[sh].remove(k);
-                            },
-                        }
+                        op.apply_to(&mut want[sh]);
                     }
                 }
                 if want != after {
@@ -828,10 +1011,7 @@ impl Real {
             let st = self.parts[sh].to_state();
             for pt in st.prepared.values() {
                 for op in &pt.operations {
-                    let key = match op {
-                        Transaction::Put { key, .. } | Transaction::Delete { key } => key,
-                        _ => continue,
-                    };
+                    let key = op.affected_key();
                     let ok = st.lock_state.locks().get(key).is_some_and(|l| l.tx_id == pt.tx_id && l.lock_handle == pt.lock_handle);
                     if !ok {
                         let holder = st.lock_state.locks().get(key).map_or("nobody".to_string(), |l| format!("tx {}", self.dense(l.tx_id)));
@@ -858,7 +1038,7 @@ impl Real {
                     continue;
                 }
                 let Some(&t) = self.writer[sh].get(&k) else { continue };
-                let show = |v: Option<&u64>| v.map_or("absent".to_string(), |x| x.to_string());
+                let show = |v: Option<&String>| v.map_or("absent".to_string(), |x| x.to_string());
                 self.viol.push(Violation {
                     class: "tensor_chain.distributed_tx.participant/committed_write_lost",
                     what: format!(
@@ -870,7 +1050,7 @@ impl Real {
                 });
                 let intact = (0..after.len()).find(|&s2| {
                     s2 != sh && {
-                        let ks: Vec<u64> = self.keys_of(t, s2).into_iter().filter(|k2| self.writer[s2].get(k2) == Some(&t)).collect();
+                        let ks: Vec<u64> = self.wkeys_of(t, s2).into_iter().filter(|k2| self.writer[s2].get(k2) == Some(&t)).collect();
                         !ks.is_empty() && ks.iter().all(|k2| self.expect[s2].get(k2) == after[s2].get(k2))
                     }
                 });
@@ -984,7 +1164,10 @@ fn run_script(m: &mut Model, rep: &mut Report, stream: &str, setup: &Setup, line
         // it is a no-op on the code as it is, i.e. the MODEL has no prepared record to discard at that
         // point of the same script; otherwise the rest of the script is outside (observations only).
         let cleanup_noop = is_cleanup(line) && ma.starts_with("ids - ");
-        if is_cleanup(line) && !cleanup_noop {
+        // Every other event the MODEL flags as outside the alphabet (a `begin` that breaks the lock
+        // discipline, a forged YES in the name of a real participant, a tick that expires a lock)
+        // puts the rest of the script outside the quantifier as well.
+        if ma.contains(" !outside") && !cleanup_noop {
             outside = true;
         }
         for v in real.viol.drain(..) {
@@ -1044,9 +1227,10 @@ fn is_cleanup(line: &str) -> bool {
     line.starts_with("stale ") || line.starts_with("recover ")
 }
 
-/// Every participant-side cleanup in `lines` is a no-op on the code as it is (asked of the model).
+/// The script stays inside the property's alphabet (asked of the model): no event is flagged
+/// `!outside`, except participant-side cleanups that are no-ops on the code as it is.
 fn cleanups_are_noops(m: &mut Model, setup: &Setup, lines: &[String]) -> bool {
-    if !lines.iter().any(|l| is_cleanup(l)) {
+    if !lines.iter().any(|l| is_cleanup(l) || l.starts_with("begin ") || l.starts_with("forge ") || l.starts_with("tick ")) {
         return true;
     }
     if m.ask(&setup.init_line()) != "ok" {
@@ -1054,21 +1238,43 @@ fn cleanups_are_noops(m: &mut Model, setup: &Setup, lines: &[String]) -> bool {
     }
     lines.iter().all(|l| {
         let a = m.ask(l);
-        !is_cleanup(l) || a.starts_with("ids - ")
+        if is_cleanup(l) {
+            a.starts_with("ids - ")
+        } else {
+            !a.contains(" !outside")
+        }
     })
 }
 
 // ------------------------------------------------------------------ generators
 
 fn gen_ops(r: &mut Rng, nkeys: u64) -> Vec<Op> {
+    gen_ops_kinds(r, nkeys, 0, false)
+}
+
+/// `mixed`: all ten `Transaction` kinds over the logical names `base..base+nkeys` (rows 0..2, edge
+/// targets / types 0..3, values 1..4 so that CompareAndSwap expectations match often).  Logical names
+/// are plain `k<n>` names, so such a workload keeps the lock discipline.
+fn gen_ops_kinds(r: &mut Rng, nkeys: u64, base: u64, mixed: bool) -> Vec<Op> {
     let n = 1 + r.below(2);
     (0..n)
         .map(|_| {
-            let k = r.below(nkeys);
-            if r.chance(3, 4) {
-                Op::Put(k, 1 + r.below(200))
-            } else {
-                Op::Del(k)
+            let k = base + r.below(nkeys);
+            if !mixed {
+                return if r.chance(3, 4) { Op::Put(k, 1 + r.below(200)) } else { Op::Del(k) };
+            }
+            let v = 1 + r.below(4);
+            match r.below(20) {
+                0..=4 => Op::Put(k, v),
+                5 | 6 => Op::Del(k),
+                7..=9 => Op::Cas(k, if r.chance(1, 4) { None } else { Some(1 + r.below(4)) }, v),
+                10 | 11 => Op::Embed(k, v),
+                12 | 13 => Op::NodeCreate(k, v),
+                14 => Op::NodeDelete(k),
+                15 => Op::EdgeCreate(k, r.below(3), r.below(3)),
+                16 => Op::TableInsert(k, v),
+                17 | 18 => Op::TableUpdate(k, r.below(2), v),
+                _ => Op::TableDelete(k, r.below(2)),
             }
         })
         .collect()
@@ -1119,11 +1325,13 @@ fn gen_schedule_mode(r: &mut Rng, setup: &Setup, max_events: usize, rep: &mut Re
     let extended = setup.age_parts;
     let mut lines: Vec<String> = vec![];
     let nkeys = if late { 1 + r.below(2) } else { 2 + r.below(3) };
+    // a third of the schedules draw from all ten Transaction kinds
+    let mixed = r.chance(1, 3);
     let mut epilogue: Option<u64> = None;
     for sh in 0..setup.n {
         for k in 0..nkeys {
             if r.chance(1, 2) {
-                lines.push(format!("preload {sh} {k} {}", 1 + r.below(200)));
+                lines.push(format!("preload {sh} {k} {}", if mixed { 1 + r.below(4) } else { 1 + r.below(200) }));
             }
         }
     }
@@ -1237,18 +1445,7 @@ fn gen_schedule_mode(r: &mut Rng, setup: &Setup, max_events: usize, rep: &mut Re
                     shards.sort_unstable();
                 }
                 let base = if disjoint { 10 * (real.txs.len() as u64 + 1) } else { 0 };
-                let ops: Vec<Vec<Op>> = shards
-                    .iter()
-                    .map(|_| {
-                        gen_ops(r, nkeys)
-                            .into_iter()
-                            .map(|o| match o {
-                                Op::Put(k, v) => Op::Put(k + base, v),
-                                Op::Del(k) => Op::Del(k + base),
-                            })
-                            .collect()
-                    })
-                    .collect();
+                let ops: Vec<Vec<Op>> = shards.iter().map(|_| gen_ops_kinds(r, nkeys, base, mixed)).collect();
                 // mostly orthogonal or zero embeddings; sometimes two shards share a direction
                 let same = r.chance(1, 5);
                 let e0 = 1 + r.below(3);
